@@ -419,6 +419,8 @@ class PreludeMixin:
                 has = ops.dict_has(recv, args[0])
                 dflt = args[1] if len(args) > 1 else None
                 v = ops.dict_get(recv, args[0])
+                if isinstance(dflt, (TupleVal, LocalDict)):
+                    dflt = self.coerce_to(st, dflt, k.val)
                 self.tf_assume(st, [z3.Implies(has, f) for f in self.type_facts(v, k.val, st)])
                 return [(st, ops.ite(has, v, dflt), None)]
             if meth in ('values', 'keys', 'items', 'itervalues', 'iteritems', 'iterkeys', 'viewvalues'):
@@ -601,6 +603,9 @@ class PreludeMixin:
             return self.record_method(st, fr, fv.selfv, q.split('.', 1)[1], args, kwargs)
         if q.startswith('spec.'):
             return [(st, self.spec_builtin(st, fr, q[5:], args))]
+        if q.startswith('opaque.'):
+            self.stats['deps_used'].add(q)
+            return [(st, SVal(KStr, [z3.String(fresh_name('opaque'))]))]
         if q.startswith('zfunc.'):
             f, rk = fv.py
             return [(st, SVal(rk, [f(*[lift(a).z for a in args])]))]
@@ -899,6 +904,15 @@ class PreludeMixin:
         return [(s, r) for s, r, _ in self.container_method(st, fr, args[0], 'items', [], {})]
 
     b_six_viewitems = b_six_iteritems
+
+    def b_math_floor(self, st, fr, args, kw):
+        v = args[0]
+        if not isinstance(v, SVal):
+            import math
+            return math.floor(v)
+        if v.kind == KInt:
+            return v
+        return SI(z3.ToInt(v.z))
 
     def b_six_iterkeys(self, st, fr, args, kw):
         return [(s, r) for s, r, _ in self.container_method(st, fr, args[0], 'keys', [], {})]
